@@ -164,6 +164,8 @@ class CFG:
             i = fn.strip(i)
             n = N[i]
             k = n["k"]
+            if "cv" in n:
+                return set()
             if k == "DeclRefExpr":
                 if n["dk"] in ("local", "parm"):
                     return None if n["d"] in addr_taken else {n["d"]}
@@ -172,7 +174,7 @@ class CFG:
                 return None
             if k in ("IntegerLiteral", "CharacterLiteral"):
                 return set()
-            if "cv" in n and k not in ("BinaryOperator", "UnaryOperator"):
+            if "cv" in n:
                 return set()
             if k == "UnaryOperator" and n["op"] == "&":
                 c = fn.strip(n["c"][0])
@@ -220,6 +222,45 @@ class CFG:
                 self._defs[n["i"]] = ds
         return self._trk
 
+    def facts_at(self, pt):
+        """tracked facts that hold on every path from the entry to `pt` (their variables are never re-assigned)"""
+        if not hasattr(self, "_facts_at"):
+            self._facts_at = {}
+        if pt in self._facts_at:
+            return self._facts_at[pt]
+        self._facts_at[pt] = frozenset()   # re-entrancy guard
+        trk = self._tracked()
+        assigned = set()
+        for ds in self._defs.values():
+            assigned |= ds
+        params = set(self.fn.pids)
+        out = set()
+        cands = {}
+        for e, (key, vs) in trk.items():
+            # declared-once locals are "assigned" by their DeclStmt; allow those defined exactly once
+            if all(self._single_def(v) for v in vs):
+                cands[key] = vs
+        for key, vs in cands.items():
+            for pol in (True, False):
+                def edge_ok(lab, p, q, key=key, pol=pol):
+                    fa = self.fact(lab)
+                    if fa is None or fa[0] not in trk:
+                        return True
+                    return not (trk[fa[0]][0] == key and fa[1] == pol)
+                if pt not in self.reach([self.entry], edge_ok=edge_ok):
+                    out.add((key, pol, vs))
+        self._facts_at[pt] = frozenset(out)
+        return self._facts_at[pt]
+
+    def _single_def(self, d):
+        if not hasattr(self, "_ndefs"):
+            self._ndefs = {}
+            for e, ds in self._defs.items():
+                for x in ds:
+                    self._ndefs[x] = self._ndefs.get(x, 0) + 1
+        n = self._ndefs.get(d, 0)
+        return n == 0 if d in self.fn.pids else n <= 1
+
     def reach(self, starts, avoid=None, edge_ok=None, want_prev=False, init_facts=()):
         """points reachable from `starts` (each start is included) without executing an element for which
         avoid(node) holds and only along edges for which edge_ok(label, src, dst) holds. Paths that need a tracked
@@ -230,8 +271,8 @@ class CFG:
         seen = set()
         prev = {}
         dq = deque()
-        f0 = frozenset(init_facts)
         for s in starts:
+            f0 = frozenset(init_facts) if init_facts else (self.facts_at(s) if trk and s != self.entry else frozenset())
             st = (s, f0)
             if st not in seen:
                 seen.add(st)
